@@ -14,7 +14,7 @@ opened = returned + closed (+ failed), <= 1 attempt in flight per family, no unc
 explored) whose set of legal outcomes must contain the observed one.
 
 Layer 2: the real TCPClient.connect with real AF_UNIX sockets (listening / refused / missing
-paths, two family labels) and fd accounting.
+paths, two family labels, resolver lists that repeat a path) and fd accounting.
 """
 from __future__ import annotations
 
@@ -36,12 +36,12 @@ PROP = "C10"
 META = {
     "level": "fault_enumeration",
     "technique": "exhaustive enumeration of address lists x per-address outcomes x timer placements on a virtual clock; trace checks + reference happy-eyeballs model",
-    "level_text": "Every address list of length <= 3 over two families, every per-address outcome {success at t, failure at t, synchronous failure, never} with t on a grid around the 0.3 s fallback timer and the connect_timeout, both stream-close behaviours (real IOStream semantics: closing fails the pending connect; test-suite semantics: it stays pending) are executed against the real _Connector on a virtual-time loop; length-4 lists are sampled; a second layer drives the real TCPClient.connect over real AF_UNIX sockets with fd accounting.",
-    "level_note": "Simultaneous events are explored in the order the loop happens to run them; the reference model accepts every tie order. The model also accepts both secondary-queue start times after a synchronous first failure (immediately / at the 0.3 s timer): the statement does not pin it. Real AF_INET/AF_INET6 connects and TLS upgrade are not exercised.",
+    "level_text": "Every address list of length <= 3 over two families, every per-address outcome {success at t, failure at t, synchronous failure, never} with t on a grid around the 0.3 s fallback timer and the connect_timeout, both stream-close behaviours (real IOStream semantics: closing fails the pending connect; test-suite semantics: it stays pending) are executed against the real _Connector on a virtual-time loop; length-4 lists are sampled; lists in which a (family, address) pair is listed more than once are enumerated for length 2..3 (every labelling; outcomes scripted per listing) and sampled for length 4; a second layer drives the real TCPClient.connect over real AF_UNIX sockets with fd accounting.",
+    "level_note": "For a list that repeats an address the model accepts a connector that tries it once per listing and one that tries it once (the statement speaks of addresses). Simultaneous events are explored in the order the loop happens to run them; the reference model accepts every tie order. The model also accepts both secondary-queue start times after a synchronous first failure (immediately / at the 0.3 s timer): the statement does not pin it. Real AF_INET/AF_INET6 connects and TLS upgrade are not exercised.",
     "design_ref": "DESIGN.md §4 C10",
     "engine": "vloop",
 }
-RULE = ("a case = (address list over two families, outcome per address from {S(t), F(t), Fsync, never}, connect_timeout, "
+RULE = ("a case = (address list over two families, possibly listing an address more than once, outcome per address from {S(t), F(t), Fsync, never}, connect_timeout, "
         "stream-close semantics); exhaustive for length <= 3 over the stated time grid, seeded random for length 4; "
         "non-trivial = >= 2 addresses or a timer interacts (an attempt outlives 0.3 s or the connect_timeout); distinct by the case tuple")
 FLOORS = {"quick": 20000, "thorough": 200000}
@@ -49,7 +49,8 @@ ASSUMPTIONS = ["the fake connect() mirrors tornado/test/tcpclient_test.py (strea
                "reference happy-eyeballs model (60 lines) is correct",
                "AF_UNIX connects complete or fail synchronously (layer 2)"]
 REQUIRED_COUNTERS = ["oracle_evals", "model_evals", "conservation_evals", "inflight_evals", "wins", "errors_all_failed",
-                     "errors_timeout", "real_connects"]
+                     "errors_timeout", "real_connects", "duplicate_address_lists", "duplicate_lists_all_failing",
+                     "real_duplicate_address_lists"]
 SHARD_TIMEOUT = {"quick": 240, "thorough": 3600}
 
 AF1, AF2 = socket.AF_INET, socket.AF_INET6
@@ -61,7 +62,9 @@ HORIZON = 6.0
 
 def EXHAUSTIVE(tier):
     return (f"all address lists of length 1..3 (first family fixed, second free) x outcomes {{S(t),F(t) for t in {GRID[tier]} ms, "
-            f"Fsync, never}} per address x connect_timeout in {TIMEOUTS[tier]} ms x 2 stream-close semantics")
+            f"Fsync, never}} per address x connect_timeout in {TIMEOUTS[tier]} ms x 2 stream-close semantics; every labelling of "
+            f"length-2..3 lists that repeats an address"
+            + (" (length 3: outcomes %s)" % (DUP_OUTS_QUICK,) if tier == "quick" else " (outcome grid of the quick tier)"))
 
 
 def outcomes_for(tier):
@@ -79,6 +82,16 @@ def shards(tier, seed):
     for fams in itertools.product((0, 1), repeat=2):
         for i in range(0, len(outs), group):
             out.append({"kind": "exh", "lists": [[0] + list(fams)], "first": list(range(i, min(len(outs), i + group)))})
+    # address lists in which an address occurs more than once (a resolver may well return such a list)
+    pats = dup_patterns()
+    if tier == "quick":
+        # length-3 labellings without a real duplicate (same label under both families only) are left to thorough
+        pats = [p for p in pats if len(p[0]) == 2 or is_dup_list(*p)]
+        for j in range(4):
+            out.append({"kind": "dup", "patterns": pats[j::4]})
+    else:
+        for pat in pats:
+            out.append({"kind": "dup", "patterns": [pat]})
     n4 = 5000 if tier == "quick" else 400000
     k = 2 if tier == "quick" else 32
     for j in range(k):
@@ -87,9 +100,52 @@ def shards(tier, seed):
     return out
 
 
+DUP_OUTS_QUICK = [("S", 100), ("S", 301), ("F", 100), ("F", 300), ("FS",), ("N",)]
+
+
+def is_dup_list(fams, names):
+    keys = list(zip(fams, names))
+    return len(set(keys)) < len(keys)
+
+
+def dup_patterns():
+    """(fams, names) of length 2..3, first family fixed: every labelling in which some (family, address) pair occurs
+    twice or more, plus the same address label under both families (which is NOT a duplicate)."""
+    out = []
+    for L in (2, 3):
+        for fams in itertools.product((0, 1), repeat=L - 1):
+            fams = (0,) + fams
+            for names in itertools.product(range(L), repeat=L):
+                # canonical labelling: labels appear in order of first use
+                seen = []
+                for x in names:
+                    if x not in seen:
+                        seen.append(x)
+                if seen != list(range(len(seen))) or len(seen) == L:
+                    continue
+                out.append([list(fams), list(names)])
+    return out
+
+
 def gen_cases(spec):
     tier = spec["tier"]
-    if spec["kind"] == "exh":
+    if spec["kind"] == "dup":
+        batch = []
+        for pat in spec["patterns"]:
+            fams, names = tuple(pat[0]), tuple(pat[1])
+            L = len(fams)
+            # length 2 and the thorough tier: the full outcome grid of the quick tier; quick length 3: a reduced one
+            outs = outcomes_for("quick") if (L == 2 or tier == "thorough") else DUP_OUTS_QUICK
+            for combo in itertools.product(outs, repeat=L):
+                for T in TIMEOUTS[tier]:
+                    for mode in ("faithful", "lazy"):
+                        batch.append((fams, combo, T, mode, 0, names))
+                        if len(batch) >= 250:
+                            yield ("batch", batch)
+                            batch = []
+        if batch:
+            yield ("batch", batch)
+    elif spec["kind"] == "exh":
         outs = outcomes_for(tier)
         batch = []
         for fams in spec["lists"]:
@@ -118,7 +174,13 @@ def gen_cases(spec):
                 t = rng.choice([rng.randrange(1, 1300), rng.choice([299, 300, 301]), rng.choice([100, 200, 400])])
                 outs.append(("S", t) if r < 0.3 else ("F", t) if r < 0.7 else ("FS",) if r < 0.85 else ("N",))
             T = rng.choice([None, None, rng.randrange(50, 1500), 300, 600])
-            batch.append((fams, tuple(outs), T, rng.choice(["faithful", "lazy"])))
+            mode = rng.choice(["faithful", "lazy"])
+            if rng.random() < 0.3:
+                # some addresses listed more than once
+                names = tuple(rng.randrange(2 if rng.random() < 0.5 else L) for _ in range(L))
+                batch.append((fams, tuple(outs), T, mode, 0, names))
+            else:
+                batch.append((fams, tuple(outs), T, mode))
             if len(batch) >= 250:
                 yield ("batch", batch)
                 batch = []
@@ -128,8 +190,25 @@ def gen_cases(spec):
         rng = core.rng_for(spec["seed"], PROP, "real")
         for _ in range(spec["n"]):
             L = rng.randint(1, 4)
-            yield ("real", tuple((rng.randrange(2), rng.choice(["ok", "ok", "missing", "refused"])) for _ in range(L)),
-                   rng.choice(["scripted", "scripted", "plain"]))
+            addrs = tuple((rng.randrange(2), rng.choice(["ok", "ok", "missing", "refused"])) for _ in range(L))
+            kind = rng.choice(["scripted", "scripted", "plain"])
+            if rng.random() < 0.4:
+                # the resolver lists some address again (same family, same path); mostly lists where nothing accepts
+                if rng.random() < 0.6:
+                    addrs = tuple((f, rng.choice(["missing", "refused"])) for f, _ in addrs)
+                addrs = list(addrs)
+                dup_of = [None] * len(addrs)
+                for _ in range(rng.randint(1, 2)):
+                    src = rng.randrange(len(addrs))
+                    while dup_of[src] is not None:
+                        src = dup_of[src]
+                    pos = rng.randint(src + 1, len(addrs))
+                    addrs.insert(pos, addrs[src])
+                    dup_of = [None if d is None else (d + 1 if d >= pos else d) for d in dup_of]
+                    dup_of.insert(pos, src)
+                yield ("real", tuple(addrs), kind, tuple(dup_of))
+            else:
+                yield ("real", addrs, kind)
 
 
 def directed_cases():
@@ -146,6 +225,11 @@ def directed_cases():
         ((0, 1), (("N",), ("N",)), 1000, "faithful"),
         ((0, 1), (("S", 1200), ("S", 900)), 1000, "lazy"),
         ((0, 1, 0), (("F", 300), ("F", 300), ("S", 300)), 300, "faithful"),
+        # duplicated addresses: everything fails / the second listing succeeds / duplicate in the secondary family
+        ((0, 0), (("F", 100), ("F", 100)), None, "faithful", 0, (0, 0)),
+        ((0, 0, 0), (("FS",), ("FS",), ("FS",)), None, "lazy", 0, (0, 1, 0)),
+        ((0, 0), (("F", 100), ("S", 100)), None, "lazy", 0, (0, 0)),
+        ((0, 1, 1), (("F", 100), ("F", 100), ("F", 400)), 1000, "faithful", 0, (0, 1, 1)),
     ]
     yield ("batch", b)
 
@@ -163,11 +247,13 @@ def skew_us(skew, i):
     return (20 if i % 2 else -20) * (i + 1)
 
 
-def model_outcomes(fams, outs, T, sync_policy, skew=0):
+def model_outcomes(fams, outs, T, sync_policy, skew=0, ids=None):
     """All legal (kind, idx, t) outcomes of a happy-eyeballs connector, times in integer
     microseconds.  kind in win/fail/timeout/pending.  Events with equal time are explored in
     every order."""
     n = len(fams)
+    if ids is None:
+        ids = list(range(n))     # identity of entry i in the caller's list (skew and reported winner)
     FALLBACK = FALLBACK_MS * 1000
     if T is not None:
         T = T * 1000
@@ -194,7 +280,7 @@ def model_outcomes(fams, outs, T, sync_policy, skew=0):
                     st["sec"] = True
                     start_next(st, 1, at_start)
                 continue
-            st["fl"][q] = (i, None if o[0] == "N" else st["now"] + o[1] * 1000 + skew_us(skew, i), o[0])
+            st["fl"][q] = (i, None if o[0] == "N" else st["now"] + o[1] * 1000 + skew_us(skew, ids[i]), o[0])
             return
 
     def run(st):
@@ -239,7 +325,7 @@ def model_outcomes(fams, outs, T, sync_policy, skew=0):
         q = e[2]
         i, _, kind = st["fl"][q]
         if kind == "S":
-            results.add(("win", i, st["now"]))
+            results.add(("win", ids[i], st["now"]))
             return False
         st["failed"] += 1
         st["fl"][q] = None
@@ -277,9 +363,12 @@ class FakeStream:
 
 
 class Harness:
-    def __init__(self, loop, fams, outs, T, mode, ctx, skew=0):
+    def __init__(self, loop, fams, outs, T, mode, ctx, skew=0, names=None):
         self.loop, self.fams, self.outs, self.T, self.mode, self.ctx = loop, fams, outs, T, mode, ctx
         self.skew = skew
+        self.names = tuple(range(len(fams))) if names is None else names
+        self.calls = {}
+        self.extra_attempts = 0
         self.events = []
         self.attempts = []
         self.inflight_viol = None
@@ -292,13 +381,19 @@ class Harness:
         return self.fut is not None and self.fut.done()
 
     def connect(self, af, addr):
-        i = addr
+        # the k-th attempt on (af, addr) gets the outcome scripted for the k-th list entry carrying that address
+        entries = [j for j in range(len(self.fams)) if (AF1, AF2)[self.fams[j]] == af and self.names[j] == addr]
+        k = self.calls.get((af, addr), 0)
+        self.calls[(af, addr)] = k + 1
+        if k >= len(entries):
+            self.extra_attempts += 1
+        i = entries[min(k, len(entries) - 1)]
         now = self.loop.time()
         live = [a for a in self.attempts if a["af"] == af and not a["future"].done() and a["stream"].closes == 0]
         if live and self.inflight_viol is None:
             self.inflight_viol = {"new": i, "live": [a["i"] for a in live], "t": now - self.t0}
         fut = self.loop.create_future()
-        att = {"i": i, "af": af, "t": now, "future": fut, "state": "pending", "after_done": self.resolved()}
+        att = {"i": i, "af": af, "name": addr, "t": now, "future": fut, "state": "pending", "after_done": self.resolved()}
         st = FakeStream(self, att)
         att["stream"] = st
         self.attempts.append(att)
@@ -348,8 +443,8 @@ async def _run_batch(batch, ctx, sink):
     for spec in batch:
         fams, outs, T, mode = spec[:4]
         n0 = len(lm.records)
-        h = Harness(loop, fams, outs, T, mode, ctx, spec[4] if len(spec) > 4 else 0)
-        addrinfo = [((AF1, AF2)[fams[i]], i) for i in range(len(fams))]
+        h = Harness(loop, fams, outs, T, mode, ctx, spec[4] if len(spec) > 4 else 0, spec[5] if len(spec) > 5 else None)
+        addrinfo = [((AF1, AF2)[fams[i]], h.names[i]) for i in range(len(fams))]
         conn = _Connector(addrinfo, h.connect)
         h.t0 = loop.time()
         io_t0 = IOLoop.current().time()
@@ -375,12 +470,12 @@ def run_case(case, ctx):
     ties = []
     for spec, (h, conn, fut, recs) in zip(batch, sink):
         ctx.current_case = ("batch", [spec])  # a replay re-executes just this schedule
-        if judge(spec, h, conn, fut, recs, ctx) and len(spec) == 4:
+        if judge(spec, h, conn, fut, recs, ctx) and (len(spec) == 4 or spec[4] == 0):
             ties.append(spec)
     # Schedules with nominally simultaneous events: force the other orders too by shifting the
     # attempt completions a few microseconds before / after the timers and each other.
     if ties:
-        extra = [spec + (k,) for spec in ties for k in (1, 2, 3)]
+        extra = [spec[:4] + (k,) + spec[5:] for spec in ties for k in (1, 2, 3)]
         sink = []
         vloop.run(_run_batch, extra, ctx, sink, collect=False)
         for spec, (h, conn, fut, recs) in zip(extra, sink):
@@ -396,6 +491,9 @@ def judge(spec, h, conn, fut, recs, ctx):
     """Returns True when the reference model says the schedule has tie-dependent outcomes."""
     fams, outs, T, mode = spec[:4]
     skew = spec[4] if len(spec) > 4 else 0
+    names = h.names
+    keys = [(fams[i], names[i]) for i in range(len(fams))]
+    dups = len(set(keys)) < len(keys)
     n = len(fams)
     interacts = any((o[0] in ("S", "F") and o[1] >= FALLBACK_MS) or o[0] == "N" for o in outs) or T is not None
     ctx.mark(spec, n >= 2 or interacts)
@@ -404,7 +502,7 @@ def judge(spec, h, conn, fut, recs, ctx):
     t0 = h.t0
 
     def wit(**kw):
-        d = {"fams": fams, "outcomes": outs, "connect_timeout_ms": T, "close_semantics": mode, "skew": skew,
+        d = {"fams": fams, "addresses": names, "outcomes": outs, "connect_timeout_ms": T, "close_semantics": mode, "skew": skew,
              "events": h.events,
              "attempts": [{"i": a["i"], "state": a["state"], "t_ms": round((a["t"] - t0) * 1000, 3),
                            "closes": a["stream"].closes} for a in h.attempts],
@@ -422,7 +520,8 @@ def judge(spec, h, conn, fut, recs, ctx):
         obs = ("timeout" if isinstance(e, gen.TimeoutError) else "fail", None)
     else:
         af, addr, stream = fut.result()
-        obs = ("win", addr)
+        won = [a for a in h.attempts if a["stream"] is stream]
+        obs = ("win", won[0]["i"] if won else None)      # identified by list position (addresses may repeat)
     ctx.count("oracle_evals")
     ctx.count({"win": "wins", "fail": "errors_all_failed", "timeout": "errors_timeout", "pending": "pending_legit"}.get(obs[0], "other"))
     # ---- (1) exactly once / no uncaught error
@@ -446,11 +545,11 @@ def judge(spec, h, conn, fut, recs, ctx):
     # ---- (2) winner is the first success
     if obs[0] == "win":
         att = [a for a in h.attempts if a["stream"] is stream]
-        if not att or att[0]["i"] != addr or (AF1, AF2)[fams[addr]] != af:
+        if not att or att[0]["name"] != addr or att[0]["af"] != af:
             ctx.violation("result/tuple-inconsistent", "(af, addr, stream) of the result do not belong together", wit(result=(af, addr)))
         elif att[0]["state"] != "succeeded":
             ctx.violation("result/attempt-did-not-succeed", "the returned stream's connect attempt had not succeeded", wit(result=addr))
-        elif succ_order and addr not in first_tie:
+        elif succ_order and att[0]["i"] not in first_tie:
             ctx.violation("result/not-first-success", "the connector returned a connection other than the first that succeeded",
                           wit(result=addr, first_success=succ_order[0]))
         if stream.closes:
@@ -463,8 +562,10 @@ def judge(spec, h, conn, fut, recs, ctx):
             ctx.violation(f"error/{obs[0]}-although-an-attempt-had-succeeded", "connector failed although a connection had succeeded before",
                           wit())
         if obs[0] == "fail":
-            failed = {e[1] for e in order if e[0] == "fail" and not e[2]}
-            if len(failed) < n:
+            # every *address* must have failed; a list entry repeating an address that already failed need not be
+            # tried again (the statement speaks of addresses), so repeated entries are counted once
+            failed = {keys[e[1]] for e in order if e[0] == "fail" and not e[2]}
+            if len(failed) < len(set(keys)):
                 ctx.violation("error/failed-before-every-address-failed",
                               "connector reported failure although not every address had been tried and failed", wit(failed=sorted(failed)))
         else:
@@ -501,6 +602,20 @@ def judge(spec, h, conn, fut, recs, ctx):
     # ---- (7) reference model
     ctx.count("model_evals")
     legal = model_outcomes(fams, outs, T, "now", skew) | model_outcomes(fams, outs, T, "wait", skew)
+    tie_dependent = len({(k, i) for k, i, _ in legal}) > 1
+    if dups:
+        # A connector may also try a repeated address only once (first listing): both readings are legal.
+        ctx.count("duplicate_address_lists")
+        if all(o[0] in ("F", "FS") for o in outs):
+            ctx.count("duplicate_lists_all_failing")
+        kept = [i for i in range(n) if keys[i] not in keys[:i]]
+        once = set()
+        for pol in ("now", "wait"):
+            once |= model_outcomes(tuple(fams[i] for i in kept), tuple(outs[i] for i in kept), T, pol, skew, ids=kept)
+        tie_dependent = tie_dependent or len({(k, i) for k, i, _ in once}) > 1
+        legal |= once
+    if h.extra_attempts:
+        ctx.count("unspecified_address_tried_more_often_than_listed")
     kinds = {(k, i) for k, i, _ in legal}
     if obs not in kinds and obs[0] != "cancelled":
         ctx.violation(f"model/{obs[0]}-where-model-expects-{'+'.join(sorted({k for k, _ in kinds}))}",
@@ -511,7 +626,7 @@ def judge(spec, h, conn, fut, recs, ctx):
             us = (h.done_at - t0) * 1e6
             if not any(k == obs[0] and i == obs[1] and abs(t - us) < 5 for k, i, t in legal):
                 ctx.count("unspecified_resolution_time_differs_from_model")
-    if len(kinds) > 1:
+    if tie_dependent:
         ctx.count("model_nondeterministic_cases")
         return True
     return False
@@ -521,7 +636,8 @@ def judge(spec, h, conn, fut, recs, ctx):
 
 def run_real(case, ctx):
     from vf.refs import clientrig
-    _, addrs, kind = case
+    _, addrs, kind = case[:3]
+    dup_of = case[3] if len(case) > 3 else (None,) * len(addrs)
     state = {}
 
     async def scenario():
@@ -531,6 +647,9 @@ def run_real(case, ctx):
         listeners = []
         infos = []
         for k, (fam, what) in enumerate(addrs):
+            if dup_of[k] is not None:
+                infos.append(infos[dup_of[k]])       # the same (family, path) listed again
+                continue
             path = os.path.join(rig.scratch, f"a{k}.sock")
             if what in ("ok", "refused"):
                 s = socket.socket(socket.AF_UNIX)
@@ -582,6 +701,8 @@ def run_real(case, ctx):
             state["rig"].cleanup_sync()
     ctx.mark(case, len(addrs) >= 2)
     ctx.count("real_connects")
+    if any(d is not None for d in dup_of):
+        ctx.count("real_duplicate_address_lists")
     ctx.count("oracle_evals")
     w = {"addresses": addrs, "client": kind, "result": res}
     if res is None:
